@@ -76,5 +76,19 @@ var spec = (&sprop.Spec{Name: "TestSessionInvariants", Opts: opts, Oracle: oracl
 
 func TestSessionInvariants(t *testing.T) { rapid.Check(t, spec.Check) }
 
+// sub-flow heavy variant: few action types, many enter_flow actions (several per node, missing targets, terminal
+// enters), default limits so that deep hierarchies are reached
+var subflowOpts = scen.GenOpts{
+	World: world.Opts{MaxFlows: 4, MaxNodes: 3, Adversarial: true, SubflowHeavy: true, Background: true,
+		Actions: []string{"enter_flow", "send_msg", "set_run_result", "set_contact_name"}},
+	Restarts: true,
+	Refresh:  true,
+	MaxSteps: 6,
+}
+
+var subflowSpec = (&sprop.Spec{Name: "TestSubflowHierarchies", Opts: subflowOpts, Oracle: oracle}).Register()
+
+func TestSubflowHierarchies(t *testing.T) { rapid.Check(t, subflowSpec.Check) }
+
 func TestRegressions(t *testing.T) { harn.Regressions(t, "C01") }
 func TestReplay(t *testing.T)      { harn.Replay(t) }
